@@ -2575,6 +2575,11 @@ func _return(n *node) {
 				values[i] = genInterfaceWrapper(c, t.TypeOf())
 				continue
 			case reflect.Func:
+				if c.typ.cat == nilT {
+					// The zero value of the result type was set at compile.
+					values[i] = genValue(c)
+					continue
+				}
 				values[i] = genFunctionWrapper(c)
 				continue
 			}
